@@ -772,4 +772,30 @@ def resolveFieldsRaw (cfg : Cfg) (re : Regex) (r : RawPD) (cm : List (String × 
   | some pd => resolveFields cfg re pd [] cm
   | none => if cfg.nilCheck then .err "nil-entry" else .panic "nil-deref"
 
+/-! ### util.go: array envelopes -/
+
+/-- go-did contract for one entry of an array envelope: what `ParseVerifiablePresentation` makes of it -/
+structure EntryVP where
+  asInterface : J := .null
+  creds : List Cred := []
+  signerOK : Bool := true
+  deriving Repr, Inhabited
+
+/-- `parseJSONArrayEnvelope`: EVERY entry (JWT string, JSON object, or anything else — re-marshalled) is handed to the
+    presentation parser; an entry that is not a presentation makes the whole envelope unparsable. No entry is skipped. -/
+def parseArrayEnvelope (parseVP : J → Option EntryVP) : List J → Res (List EntryVP)
+  | [] => .ok []
+  | e :: es =>
+    match parseVP e with
+    | none => .err "envelope"
+    | some p =>
+      match parseArrayEnvelope parseVP es with
+      | .ok r => .ok (p :: r)
+      | .err x => .err x
+      | .panic x => .panic x
+
+/-- the envelope built from the parsed entries: `asInterface` and `Presentations` keep the positions of the presented array -/
+def envelopeOfEntries (r : List EntryVP) : Envelope :=
+  { asInterface := .arr (r.map (·.asInterface)), presentations := r.map (·.creds), signerOK := r.map (·.signerOK) }
+
 end Nuts.C12
